@@ -282,6 +282,7 @@ func (s *session) exec(line string) (string, error) {
 		if err != nil {
 			return "", err
 		}
+		scribble(p, 0)
 		return "ok " + g.Text(), nil
 	case "fromwire":
 		t, rest, err := gtext.ParseT(toks[1:])
@@ -305,6 +306,7 @@ func (s *session) exec(line string) (string, error) {
 		if err != nil {
 			return "", err
 		}
+		scribble(p, 0)
 		return "ok " + g.Text(), nil
 	case "decode", "decodec", "memdecode":
 		t, rest, err := gtext.ParseT(toks[1:])
@@ -400,6 +402,7 @@ func (s *session) exec(line string) (string, error) {
 		if err != nil {
 			return "", err
 		}
+		scribble(p, 0)
 		return fmt.Sprintf("ok %d %s", consumed(), g.Text()), nil
 	case "equals":
 		t, rt, a, rest, err := s.parseTG(toks[1:])
@@ -446,6 +449,41 @@ func (s *session) exec(line string) (string, error) {
 			return "", orBad(err)
 		}
 		return "ok " + b01(wire.ValuesAreEqual(a, b)), nil
+	case "weqlazy":
+		// wire.ValuesAreEqual, both ways round, on two values as binary.Default.Decode returns them
+		// (containers still lazy): weqlazy <type code> <hex> <hex>
+		if len(toks) != 4 {
+			return "", bad("weqlazy <type> <hex> <hex>")
+		}
+		tc, err := strconv.Atoi(toks[1])
+		if err != nil {
+			return "", badOp{err}
+		}
+		var vs [2]wire.Value
+		for i := 0; i < 2; i++ {
+			data, err := unhex(toks[2+i])
+			if err != nil {
+				return "", badOp{err}
+			}
+			v, err := binary.Default.Decode(bytes.NewReader(data), wire.Type(tc))
+			if err != nil {
+				return "undecodable", nil
+			}
+			vs[i] = v
+		}
+		try := func(a, b wire.Value) (res string) {
+			defer func() {
+				if recover() != nil {
+					res = "panic"
+				}
+			}()
+			return b01(wire.ValuesAreEqual(a, b))
+		}
+		ab, ba := try(vs[0], vs[1]), try(vs[1], vs[0])
+		if ab == ba && ab != "panic" {
+			return "ok sym", nil
+		}
+		return "ok " + ab + " " + ba, nil
 	case "default":
 		if len(toks) != 2 {
 			return "", bad("default <Name>")
@@ -462,6 +500,7 @@ func (s *session) exec(line string) (string, error) {
 		if err != nil {
 			return "", err
 		}
+		scribble(out[0], 0)
 		return "ok " + g.Text(), nil
 	case "get", "isset":
 		if len(toks) < 4 {
@@ -497,10 +536,12 @@ func (s *session) exec(line string) (string, error) {
 		if !m.IsValid() {
 			return "nomethod", nil
 		}
-		r, err := s.dump(f.T, m.Call(nil)[0])
+		got := m.Call(nil)[0]
+		r, err := s.dump(f.T, got)
 		if err != nil {
 			return "", err
 		}
+		scribble(got, 0)
 		return "ok " + r.Text(), nil
 	case "rawstring", "rawerror", "rawzap":
 		_, _, v, rest, err := s.parseTG(toks[1:])
